@@ -154,6 +154,47 @@ theorem C12_unanchored_errors (rs : Ruleset) (leaf : Cert) (anchors : List Ancho
     obtain ⟨_, _, a, ha, hA⟩ := (C12_reader_ok_iff leaf anchors).mp hv
     exact h a ha hA
 
+/-- The executable declarative spec decides the verdict: the library's own validation logic (as
+modelled) reports no error EXACTLY for the chains the Annex B statement accepts. -/
+theorem C12_spec_decides (rs : Ruleset) (leaf : Cert) (anchors : List Anchor) :
+    validate rs leaf anchors = [] ↔ conformsB rs leaf anchors = true := by
+  cases rs with
+  | mdlReaderOneStep =>
+    rw [C12_reader_ok_iff]
+    simp [conformsB, withinValidityB_iff, profileOkB_iff, anchorsB_iff, and_assoc]
+  | mdl =>
+    rw [C12_mdl_ok_iff, candidates_cons_iff leaf anchors .iaca
+      (fun i => SingleEqual leaf.countries i.countries ∧ ProfileOk .iaca i ∧ ((leaf.states ≠ [] ∨ i.states ≠ []) → SingleEqual leaf.states i.states))]
+    simp only [conformsB, Bool.and_eq_true, withinValidityB_iff, profileOkB_iff, and_assoc]
+    cases hf : anchors.find? (anchorsB leaf .iaca) with
+    | none => simp
+    | some a =>
+      simp only [Option.some.injEq, exists_eq_left', Bool.and_eq_true, Bool.or_eq_true, singleEqualB_iff, profileOkB_iff,
+        List.isEmpty_iff]
+      have key : ((leaf.states ≠ [] ∨ a.cert.states ≠ []) → SingleEqual leaf.states a.cert.states) ↔
+          (leaf.states = [] ∧ a.cert.states = [] ∨ SingleEqual leaf.states a.cert.states) := by
+        constructor
+        · intro h
+          by_cases h1 : leaf.states = []
+          · by_cases h2 : a.cert.states = []
+            · exact Or.inl ⟨h1, h2⟩
+            · exact Or.inr (h (Or.inr h2))
+          · exact Or.inr (h (Or.inl h1))
+        · rintro (⟨h1, h2⟩ | h) hne
+          · rcases hne with h | h <;> contradiction
+          · exact h
+      rw [key]
+      constructor
+      · rintro ⟨h1, h2, h3, h4, h5⟩; exact ⟨h1, h2, ⟨h3, h4⟩, h5⟩
+      · rintro ⟨h1, h2, ⟨h3, h4⟩, h5⟩; exact ⟨h1, h2, h3, h4, h5⟩
+  | aamvaMdl =>
+    rw [C12_aamva_ok_iff, candidates_cons_iff leaf anchors .iaca
+      (fun i => SingleEqual leaf.countries i.countries ∧ ProfileOk .iaca i ∧ SingleEqual leaf.states i.states)]
+    simp only [conformsB, Bool.and_eq_true, withinValidityB_iff, profileOkB_iff, and_assoc]
+    cases hf : anchors.find? (anchorsB leaf .iaca) with
+    | none => simp
+    | some a => simp [singleEqualB_iff, profileOkB_iff, and_assoc]
+
 /-- non-vacuity: a conformant chain validates; single deviations do not -/
 def goodIaca : Cert :=
   { notBefore := -10, notAfter := 10, subject := 1, issuer := 1, countries := [840], states := [], keyHash := 11, keyIsP256 := true,
@@ -167,6 +208,8 @@ def goodDs : Cert :=
              ⟨.crldp, false, .crldp [⟨true, false, false⟩]⟩, ⟨.eku, true, .eku [2]⟩] }
 
 example : validate .mdl goodDs [⟨goodIaca, .iaca⟩] = [] := by decide
+example : conformsB .mdl goodDs [⟨goodIaca, .iaca⟩] = true := by decide
+example : conformsB .mdl { goodDs with exts := goodDs.exts ++ [⟨.eku, false, .eku [1]⟩] } [⟨goodIaca, .iaca⟩] = false := by decide
 example : validate .mdl goodDs [⟨goodIaca, .readerCa⟩] = [.noTrustAnchor] := by decide
 example : validate .mdl { goodDs with notAfter := -1 } [⟨goodIaca, .iaca⟩] = [.expired] := by decide
 example : validate .mdl { goodDs with exts := goodDs.exts ++ [⟨.other 9, true, .opaque⟩] } [⟨goodIaca, .iaca⟩]
